@@ -22,7 +22,7 @@ RULE = ('case = (configuration in ticks; event list) run against the real AsyncB
         'default str(arg), call key0 by explicit key= with another arg, call key1, advance to 1 tick before / exactly to / '
         '1 tick past the next armed deadline (batch timeout or retention timer), and for the oldest live batch: yield a '
         'value / an Exception for an unanswered key, raise, return} for retention_timeout 0, 5 (< batch_timeout) and 9 '
-        '(> batch_timeout); random layer: up to 10 calls over 1..3 keys, retention in {0, 7, 40, 4000} ticks, gaps on a grid '
+        '(> batch_timeout; there the explicit key is the empty string, used with two different args); random layer: up to 10 calls over 1..3 keys plus the explicit empty key, retention in {0, 7, 40, 4000} ticks, gaps on a grid '
         'around retention_timeout, batch_timeout and every armed deadline.  non-trivial = some key is requested at least '
         'twice and somebody is answered (Case_C11.nontrivial, inside Coq); distinct = distinct (case, trace) pairs'
         ' Chain events (one task making m+1 sequential calls, each in the continuation of the previous answer — the only way to call in the very loop iteration in which the key is released) are part of the corpus, of the exhaustive alphabet (retention 0 / one slot) and of the random layer.')
@@ -35,9 +35,8 @@ LEVEL_NOTE = ('trusted: Coq kernel + vm_compute; asyncio primitives (Queue, wait
     'done-callbacks, call_later, task wake-up order) are modelled in Batcher.v and validated only by the '
     'correspondence runs; harness/vloop.py, harness/batcher_drv.py, coq/theories/Case_Batcher.v (agree + monitors).  '
     'The state-free conjuncts of the monitors (ok_basic) are proved complete and sound; the full monitors ok_C04 / '
-    'ok_C10 / ok_C11 are proved complete on Chain-free event lists (monitor_complete_nochain) and partially sound '
-    'model-free (monitor_sound_*); for scripts with Chain events the tie of the state-dependent conjuncts is agree '
-    '(model trace = observed trace) on every case')
+    'ok_C10 / ok_C11 are proved complete on ALL event lists, Chain events included (monitor_complete; ok_C04 / '
+    'ok_C10 for batch_timeout > 0), and partially sound model-free (monitor_sound_*)')
 TECHNIQUE = D.TECHNIQUE
 
 run_impl = D.run_impl
@@ -84,12 +83,22 @@ def corpus():
     # the decorator form forwards retention_timeout
     out.append(G.mk(dict(c, deco=True), [['call', 1, None], ['adv', 10], ['yield', 0, 1, 'v', 5], ['adv', 19],
                                          ['call', 1, None], ['adv', 1], ['call', 1, None], ['adv', 10], ['fin', 1]]))
+    # the explicit EMPTY key '' (falsy): calls with different args share ONE request under it, and it is not the
+    # default key str(arg) of any of them (b(2, key='') does not share with b(2))
+    E = D.EMPTY_KEY
+    out.append(G.mk(dict(c, mbs=3), [['call', 1, E], ['call', 2, E], ['call', 3, E], ['call', 2, None], ['adv', 10],
+                                     ['yield', 0, E, 'v', 5], ['yield', 0, 2, 'v', 6], ['fin', 0], ['adv', 5],
+                                     ['call', 4, E], ['adv', 20], ['call', 2, E], ['adv', 10], ['fin', 1]]))
+    out.append(G.mk(dict(c, deco=True), [['burst', [[1, E], [1, None], [2, E]]], ['yield', 0, 1, 'v', 3],
+                                         ['yield', 0, E, 'e', 1], ['fin', 0]]))
     return out
 
 
 def _alphabet():
     def alpha(m, evs):
-        out = [['call', 0, None], ['call', 5, 0], ['call', 1, None]]
+        # retention 9: the explicit key is the EMPTY string '' (falsy), shared by two different args
+        out = ([['call', 0, None], ['call', 5, 0], ['call', 1, None]] if m.cfg['rt'] != 9 else
+               [['call', 0, None], ['call', 5, D.EMPTY_KEY], ['call', 1, D.EMPTY_KEY]])
         if (m.cfg['rt'] == 0 or m.cfg['conc'] == 1) and not any(e[0] == 'chain' for e in evs):
             out.append(['chain', 0, None, 1])
         ds = [d for d in m.deadlines() if d > m.now]
@@ -161,8 +170,10 @@ LEVEL_TEXT = ('On the macro-step model of AsyncBackgroundBatcher (coq/theories/B
     'virtual-time loop, incl. tasks that call again in the continuation of their answer; the monitor ok_C11 judges '
     'the observed trace independently of the model (monitor_basic_complete / monitor_basic_sound: the state-free '
     'conjuncts — no TaskDied, completion clock, no double completion, non-empty duplicate-free batches not in the '
-    'future — accept every model trace for all event lists and imply these facts; monitor_complete_nochain: the FULL '
+    'future — accept every model trace for all event lists and imply these facts; monitor_complete: the FULL '
     'monitor ok_C11 — incl. FIFO of the observed batches against the queue of expected requests and the window '
-    'specification — accepts every model trace for all configurations and all event lists without Chain events, by a '
-    "simulation between model state and monitor state (Case_Batcher_C11.v, spec_ret: the monitor's window decides "
-    'exactly like the retention cache); monitor_sound_partial for soundness of the full monitor).')
+    'specification — accepts every model trace for all configurations and ALL event lists, Chain events included, by a '
+    "simulation between model state and monitor state (Case_Batcher_Full.v; spec_ret: the monitor's window decides "
+    'exactly like the retention cache; recalls_match: resumed tasks call again in the same order in model and '
+    'monitor; monitor_complete_nochain is the earlier Chain-free version, Case_Batcher_C11.v); '
+    'monitor_sound_partial for soundness of the full monitor).')
